@@ -213,7 +213,7 @@ def chains_chunk(seeds, extra):
         p, r = w.pair(cls)
         events, steps = [], []
         for _ in range(rng.randint(2, 3)):
-            if rng.random() < 0.3 and cls in ("fwd", "valobj", "iterobj"):
+            if rng.random() < 0.3 and type(r).__name__ in ("Fwd", "Money", "Bag"):
                 # (user objects: values with a literal repr are inlined into the call, which is C06's business)
                 # the result goes back into student code as an argument and comes out again (directly, or inside a
                 # list): what the student's function returns is then itself a proxy, wrapped once more
